@@ -58,6 +58,10 @@ pub fn drive(args: &HashMap<String, String>) {
         }
         progs.push(g.program().rename_vars(&lower));
     }
+    // UseLadder: the second parameter is used through every chain of two constructs (it must never be reported)
+    for (p, _) in crate::p_compile::use_ladder(true) {
+        progs.push(p);
+    }
     // 1. ask the checker
     let jobs: Vec<Value> = progs.iter().map(|p| json!({"op": "usecheck", "text": p.render("*standard-cl-21*")})).collect();
     let cfg = PoolCfg { batch: 1, timeout: Duration::from_secs(20), ..PoolCfg::default() };
